@@ -13,7 +13,7 @@ pub fn run(args: &Args, r: &mut Report) {
         scheduler fires them one at a time in seeded random order, running the machine to quiescence after EACH firing, so every \
         strict subset of a wait's timers is observed before the full set (both orders of {time-bound, minimum-wait} are enumerated \
         by alternating the first choice); the same inside reboot waits (30-minute re-ask timer + ping timers), optionally with \
-        control requests.  Monitors: log-order rules tying every scheduling timer to the preceding policy answer and every \
+        control requests, or with every control handle dropped at a random point.  Monitors: log-order rules tying every scheduling timer to the preceding policy answer and every \
         unrequested check / ping to the firing of all timers of its wait.  Shape key = timing kinds + firing order pattern + \
         decisions.  Non-trivial = a minimum wait, a throttled iteration or a reboot wait."
         .into();
@@ -91,6 +91,10 @@ pub fn run(args: &Args, r: &mut Report) {
         d.max_steps = case.max_steps;
         let ctl_mode = rng.below(4); // 0: none, 1..: some control requests
         let mut ctl_budget = if ctl_mode == 0 { 0 } else { 1 + rng.usize(2) };
+        // an embedder that never asks for checks may drop every control handle at any time; the scheduled
+        // operation must go on exactly as before
+        let mut drop_handles_at: Option<usize> = if ctl_mode == 0 && rng.chance(1, 3) { Some(rng.usize(12)) } else { None };
+        let mut rounds = 0usize;
         let mut order_pattern = String::new();
         let mut partial_seen = 0u64;
         let end = loop {
@@ -110,6 +114,15 @@ pub fn run(args: &Args, r: &mut Report) {
             let gates = d.pending_gates();
             if gates.is_empty() {
                 break RunEnd::Blocked;
+            }
+            rounds += 1;
+            if drop_handles_at.map(|n| rounds > n).unwrap_or(false) {
+                drop_handles_at = None;
+                for h in 0..d.handles.len() {
+                    d.drop_handle(h);
+                }
+                order_pattern.push('x');
+                continue;
             }
             if ctl_budget > 0 && rng.chance(1, 12) {
                 ctl_budget -= 1;
